@@ -512,4 +512,17 @@ theorem expectedMembers_roundtrip (ms : List WMember) :
     simp only [List.map_map, List.length_nil, List.nil_append, Function.comp_def] at this
     exact this
 
+
+/-- the format's assignment for the member records, counts, sizes and digests of a session -/
+theorem spec_assign_session (ms : List WMember) :
+    assign (ms.map memberFile) [(dataMembers ms).length] ((dataMembers ms).map (fun m => m.blocks.flatten.length))
+      ((dataMembers ms).map (fun m => some (crc32 m.blocks.flatten))) = .ok (expectedMembers ms) := by
+  unfold assign
+  have hcount : ((ms.map memberFile).filter (fun f => !f.emptyStream)).length =
+      ((dataMembers ms).map (fun m => m.blocks.flatten.length)).length := by
+    simp only [List.filter_map, List.length_map, dataMembers]
+    rfl
+  rw [assignGo_single (ms.map memberFile) _ 0 0 (dataMembers ms).length _ _ (by simp; omega) (by simp) hcount (by simp)]
+  rfl
+
 end SevenZ
